@@ -1,7 +1,7 @@
 /* C02 driver.  stdin: one input path per line, optionally "\t<mode>" with mode: L load (default), T test only.
  * For every input prints
  *   IN <size in bytes>
- *   RET <return code>  USEC <wall time of the call>  RSSKB <growth of the peak resident set during the call>  MAXREQ <largest single allocation request>
+ *   RET <return code>  USEC <wall time of the call>  RSSKB <growth of the peak resident set during the call>  MAXREQ <largest single allocation request>  SUMREQ <all bytes requested from the allocator during the call>
  * and for a load: the scan's event log through hook H3
  *   CELLS <total rows over all orders> then "C" per scan_module call, "O v" outer iteration (orders_since_last_valid),
  *   "W cell v" row processed (cell = rows before that order + row; v = visit counter), "D cell v" row-delay adjustment
@@ -16,10 +16,11 @@
 
 /* allocator interposition (linked with --wrap=malloc,calloc,realloc): the largest single request made during a call */
 static size_t maxreq;
+static unsigned long long sumreq;      /* all bytes asked for during the call (an upper bound of what was live at any time) */
 void *__real_malloc(size_t); void *__real_calloc(size_t, size_t); void *__real_realloc(void *, size_t);
-void *__wrap_malloc(size_t n) { if (n > maxreq) maxreq = n; return __real_malloc(n); }
-void *__wrap_calloc(size_t a, size_t b) { size_t n = a * b; if (a && n / a != b) n = (size_t)-1; if (n > maxreq) maxreq = n; return __real_calloc(a, b); }
-void *__wrap_realloc(void *p, size_t n) { if (n > maxreq) maxreq = n; return __real_realloc(p, n); }
+void *__wrap_malloc(size_t n) { if (n > maxreq) maxreq = n; sumreq += n; return __real_malloc(n); }
+void *__wrap_calloc(size_t a, size_t b) { size_t n = a * b; if (a && n / a != b) n = (size_t)-1; if (n > maxreq) maxreq = n; sumreq += n; return __real_calloc(a, b); }
+void *__wrap_realloc(void *p, size_t n) { if (n > maxreq) maxreq = n; sumreq += n; return __real_realloc(p, n); }
 
 static void on_alarm(int sig) { (void)sig; puts("TIMEOUT"); fflush(stdout); _exit(3); }
 
@@ -70,15 +71,15 @@ int main(void)
 		c = xmp_create_context(); gctx = (struct context_data *)c;
 		have_cells = 0; nlogged = 0;
 		signal(SIGALRM, on_alarm); alarm(60);	/* a call that does not return is reported, not waited for */
-		t0 = usec(); r0 = rsskb(); maxreq = 0;
+		t0 = usec(); r0 = rsskb(); maxreq = 0; sumreq = 0;
 		if (mode && mode[0] == 'T') {
 			ret = xmp_test_module(line, &ti);
-			printf("RET %d USEC %ld RSSKB %ld MAXREQ %zu\n", ret, usec() - t0, rsskb() - r0, maxreq);
+			printf("RET %d USEC %ld RSSKB %ld MAXREQ %zu SUMREQ %llu\n", ret, usec() - t0, rsskb() - r0, maxreq, sumreq);
 		} else {
 			libxmp_verif_scanlog = scanlog;
 			ret = xmp_load_module(c, line);
 			libxmp_verif_scanlog = NULL;
-			printf("RET %d USEC %ld RSSKB %ld MAXREQ %zu\n", ret, usec() - t0, rsskb() - r0, maxreq);
+			printf("RET %d USEC %ld RSSKB %ld MAXREQ %zu SUMREQ %llu\n", ret, usec() - t0, rsskb() - r0, maxreq, sumreq);
 			if (ret == 0) {
 				t0 = usec();
 				if (xmp_start_player(c, 44100, 0) == 0) {
